@@ -36,7 +36,9 @@ def table(path, metadir, benign=False):
         if not v.get("applies", True):
             lines.append("| %s | %s | %s | does not apply | |" % (mid, target, desc))
             continue
-        lines.append("| %s | %s | %s | %s | %s |" % (mid, target, desc, "**caught**" if target in fired else "MISSED", ",".join(fired)))
+        tc = v["checks"].get(target, {})
+        only_fail_closed = bool(tc.get("fired")) and tc.get("first") and all(m.startswith("unanalysable") or m.startswith("engine-failure") for m in tc["first"])
+        lines.append("| %s | %s | %s | %s | %s |" % (mid, target, desc, ("**caught**" + (" †" if only_fail_closed else "")) if target in fired else "MISSED", ",".join(fired)))
     return "\n".join(lines) + "\n"
 
 
